@@ -210,6 +210,10 @@ func (w *World) VerifyFunc(fi *FuncInfo, c *Contract, opts VerifyOpts) (res *Uni
 		}
 		if cname != "" && cname != "_" {
 			p.entry[cname] = val
+			if ex.paramAlias == nil {
+				ex.paramAlias = map[string]*types.Var{}
+			}
+			ex.paramAlias[cname] = v // the contract's name for this parameter, whatever the code calls it
 		}
 		if v.Name() != "" {
 			if _, ok := p.entry[v.Name()]; !ok {
@@ -291,7 +295,7 @@ func (w *World) VerifyFunc(fi *FuncInfo, c *Contract, opts VerifyOpts) (res *Uni
 			// map parameters named in `modifies` are references: ensures see their final content, old() the entry content
 			for _, mname := range c.Modifies {
 				for obj, val := range q.vars {
-					if obj.Name() == mname {
+					if alias := ex.paramAlias[mname]; (alias != nil && obj == alias) || (alias == nil && obj.Name() == mname) {
 						if _, isMap := val.Ty.Underlying().(*types.Map); isMap {
 							if _, isParam := q.entry[mname]; isParam {
 								q.names[mname] = val
@@ -549,6 +553,14 @@ func (ex *Exec) discharge(opts VerifyOpts) []OblResult {
 			}
 			sr := Solve(script, timeout, true)
 			r.SolverMs += sr.Ms
+			if sr.Status != "unsat" && sr.Status != "sat" && loadScale() > 1.5 && o.Kind != "cover" && o.Kind != "canary" {
+				// undecided on a busy machine: once more, with three times the budget, before anything is reported
+				sr2 := Solve(script, 3*timeout, true)
+				r.SolverMs += sr2.Ms
+				if sr2.Status == "unsat" || sr2.Status == "sat" {
+					sr = sr2
+				}
+			}
 			r.Backend = sr.Solver
 			switch sr.Status {
 			case "unsat":
